@@ -310,11 +310,29 @@ def run(ctx):
         common.search(ctx, name + ":a", s["values"], make_check_a(name, s), k)
         common.search(ctx, name + ":b", s["canon"], make_check_b(name, s), k)
     common.search(ctx, "rmw", rmw_case(), check_rmw, 3 * k)
+    if ctx.mine(0):
+        common.run_one(ctx, "getlbastatus:minimal", {}, check_minimal_getlbastatus)
+
+
+def check_minimal_getlbastatus(case):
+    """GET LBA STATUS parameter data built from a dictionary without the optional descriptor list is the
+    canonical empty response (PARAMETER DATA LENGTH 4, no descriptors)."""
+    G = L("scsi_cdb_getlbastatus", "GetLBAStatus")
+    with lib("marshall"):
+        b = bytes(G.marshall_datain(dict(case)))
+    want = bytes(R.get_lba_status([]))
+    expect(b == want, "mismatch:bytes_of_minimal_structure", got=b, want=want)
+    with lib("unmarshall"):
+        back = G.unmarshall_datain(bytearray(b))
+    expect(list(back.get("lbas", [None])) == [], "mismatch:values_roundtrip:minimal", got=back)
+    return False, ("minimal",)
 
 
 def replay(ctx, subject, case):
     if subject == "rmw":
         return check_rmw(case)
+    if subject == "getlbastatus:minimal":
+        return check_minimal_getlbastatus(case)
     name, mode = subject.split(":")
     s = structures()[name]
     (make_check_a if mode == "a" else make_check_b)(name, s)(case)
